@@ -818,7 +818,9 @@ class EvalContract(LibModel):
         cov = st.ghost.get('covered')
         if cov is None or eng.scouting:
             return False
-        return not eng.feasible(st, z3.Not(cov))
+        # (decisive, not a pruning hint: a `covered` state ends the exploration of the loop, an uncovered one is havocked on -
+        # so the timeout is sized for a machine with every core busy)
+        return not eng.feasible(st, z3.Not(cov), timeout_ms=30000)
 
     def on_iteration_end(self, eng, st, ordinal):
         pass
